@@ -573,6 +573,12 @@ MUTANTS = [
         "static constexpr std::uint64_t pending_delta_base = std::uint64_t(1) << 32;", "static constexpr std::uint64_t pending_delta_base = 1 << 15;")]),
     dict(name='c02-serializer-previous-word-truncated', prop='C02', clause='D7', edits=[('src/tbb/thread_request_serializer.cpp',
         "    std::uint64_t prev_pending_delta = my_pending_delta.fetch_add(counter_value + delta);", "    int prev_pending_delta = int(my_pending_delta.fetch_add(counter_value + delta));")]),
+    dict(name='c02-pop-throwing-assignment-not-announced', prop='C02', clause='D4', edits=[(CQ_H,
+        """            auto vacated_guard = make_raii_guard([&] {
+                r1::notify_bounded_queue_monitor(my_monitors, cbq_slots_avail_tag, target);
+            });
+            popped = my_queue_representation->choose(target).pop(dst, target, *my_queue_representation, my_allocator);
+            vacated_guard.dismiss();""", """            popped = my_queue_representation->choose(target).pop(dst, target, *my_queue_representation, my_allocator);""")]),
     # ---------------------------------------------------------------- C05
     dict(name='c05-simple-do-while', prop='C05', clause='D1', edits=[
         (PT_H, "        while( range.is_divisible() )\n            start.offer_work( split_obj, ed );", "        do {\n            start.offer_work( split_obj, ed );\n        } while( range.is_divisible() );")]),
@@ -799,6 +805,12 @@ MUTANTS = [
             k + queue_rep_type::n_queue, index == items_per_page - 1 ? p : nullptr );
         assign_and_destroy_item(dst, *p, index);
         return true;""")]),
+    dict(name='c09-pop-dereferences-sentinel-page', prop='C09', clause='D3', edits=[('include/oneapi/tbb/detail/_concurrent_queue_base.h',
+        "            if (valid_page && (p->mask.load(std::memory_order_relaxed) & (std::uintptr_t(1) << index))) {", "            if (p->mask.load(std::memory_order_relaxed) & (std::uintptr_t(1) << index)) {")]),
+    dict(name='c09-infinite-capacity-in-signed-type', prop='C09', clause='D6', edits=[(CQ_H,
+        "    static constexpr std::ptrdiff_t infinite_capacity = std::ptrdiff_t(~std::size_t(0) / 2);", "    static constexpr std::ptrdiff_t infinite_capacity = std::ptrdiff_t(~size_type(0) / 2);")]),
+    dict(name='c09-aborted-push-hands-ticket-back', prop='C09', clause='D1', edits=[(CQ_H,
+        "                my_queue_representation->choose(ticket).abort_push(ticket, *my_queue_representation, my_allocator);", "                my_queue_representation->tail_counter--;")]),
     # ---------------------------------------------------------------- C10
     dict(name='c10-exclude-reader-bucket', prop='C10', clause='D1', edits=[
         (CHM_H, "            bucket_accessor b( this, hash & mask, /*writer=*/true );", "            bucket_accessor b( this, hash & mask );")]),
